@@ -28,7 +28,7 @@ def make (dbg : Bool) (x y re im : K) : Except Err (SE2 K) := do
   pure ⟨x, y, re, im⟩
 /-- `SE2(x, y, theta)` -/
 def ofXYAngle (dbg : Bool) (x y θ : K) : Except Err (SE2 K) :=
-  make dbg x y (Scalar.cos θ) (Scalar.sin θ)
+  make dbg x y (Scalar.cosUnq θ) (Scalar.sinUnq θ)
 /-- `SE2(Isometry2)`: `SE2(tx, ty, Rotation2D(h.rotation()).angle())`, `angle = atan2(m10, m00)` -/
 def ofIsometry (dbg : Bool) (h : List K) : Except Err (SE2 K) :=
   let g (r c : Nat) : K := h.getD (3 * r + c) (nat 0)
